@@ -113,6 +113,16 @@ EXTRACT = {"copy", "copy_unchecked", "copy_hash", "copy_hash_unchecked", "hard_l
            "reflink_unchecked", "reflink_hash", "reflink_hash_unchecked"}
 
 
+def _modes(d):
+    out = {}
+    for name in (os.listdir(d) if os.path.isdir(d) else []):
+        try:
+            out[name] = os.lstat(os.path.join(d, name)).st_mode & 0o7777
+        except OSError:
+            pass
+    return out
+
+
 def worker(ctx, job):
     res = V.new()
     flavour, side, rootform, temp = job["flavour"], job["side"], job["rootform"], job["temp"]
@@ -161,12 +171,12 @@ def worker(ctx, job):
             if temp == "index-only":
                 # a cache that holds nothing but raw index entries (public index::insert)
                 srv.call({"op": "index_insert", "cache": real_cache, "key": key if key is not None else "only", "opts": {"integrity": sri(OLD), "time": "1", "size": 7}})
-            if temp in ("warm", "damaged-content", "truncated-content"):
+            if temp in ("warm", "damaged-content", "truncated-content", "readonly-extracted"):
                 wr.do_write(srv, real_cache, side="s", entry="oneshot", key="bystander", n=3, tag=1)
                 wr.do_write(srv, real_cache, side="s", entry="hash", n=OLD["n"], tag=OLD["tag"])
                 if key is not None:
                     wr.do_write(srv, real_cache, side="s", entry="oneshot", key=key, n=OLD["n"], tag=OLD["tag"])
-                if temp != "warm":
+                if temp in ("damaged-content", "truncated-content"):
                     # the stored bytes no longer match their address: a failing check is still a read, not a repair or an eviction
                     cp_ = os.path.join(real_cache, ref.content_rel(sri(OLD)))
                     with open(cp_, "r+b") as fh:
@@ -185,8 +195,26 @@ def worker(ctx, job):
                 else:
                     with open(dest, "wb") as fh:
                         fh.write(b"an unrelated file")
+            if temp == "readonly-extracted":
+                # an earlier extraction by hard link, write-protected by its owner afterwards (same inode as the content file)
+                cp_ = os.path.join(real_cache, ref.content_rel(sri(OLD)))
+                ex_ = os.path.join(outside, "extracted-earlier")
+                if os.path.lexists(ex_):
+                    os.chmod(ex_, 0o644)
+                    os.unlink(ex_)
+                if os.path.isfile(cp_):
+                    os.link(cp_, ex_)
+                    os.chmod(ex_, 0o444)
+            if temp == "link-to-readonly-target":
+                ro_ = os.path.join(outside, "read-only-target")
+                if not os.path.exists(ro_):
+                    with open(ro_, "wb") as fh:
+                        fh.write(ref.gen(OLD["n"], OLD["tag"]))
+                    os.chmod(ro_, 0o444)
+                srv.call({"op": "link_to_sync", "cache": real_cache, "key": key if key is not None else "linked", "target": ro_})
             init = fsutil.snapshot(real_cache)
             before_outside = fsutil.snapshot(outside)
+            modes_before = _modes(outside)
             pf = ctx.path("prog-c15.json")
             with open(pf, "w") as fh:
                 json.dump(prog, fh)
@@ -278,6 +306,10 @@ def worker(ctx, job):
             b2.pop("dest", None)
             if after_out != b2:
                 V.violation(res, "monitor:%s/%s:outside-changed" % (op, side), "directory outside the cache changed: %s -> %s" % (sorted(b2), sorted(after_out or {})), replay)
+            modes_after = _modes(outside)
+            changed = sorted(k for k in modes_before if k in modes_after and modes_after[k] != modes_before[k] and k != "dest")
+            if changed:
+                V.violation(res, "monitor:%s/%s:outside-file-mode-changed" % (op, side), "permission bits of files outside the cache changed: %s" % [(k, oct(modes_before[k]), oct(modes_after[k])) for k in changed], replay)
             tgt_now = open(target, "rb").read() if os.path.exists(target) else None
             if tgt_now != ref.gen(OLD["n"], OLD["tag"]):
                 V.violation(res, "monitor:%s/%s:link-target-modified" % (op, side), "link target was modified", replay)
@@ -310,11 +342,16 @@ def main(tier, seed=0):
         for dmg in ("damaged-content", "truncated-content"):
             jobs.append({"flavour": flavour, "side": side, "temp": dmg, "rootform": "abs", "ops": ["read", "stream", "metadata", "copy", "copy_unchecked", "hard_link", "reflink"], "keys": keys[:2]})
             jobs.append({"flavour": flavour, "side": side, "temp": dmg, "rootform": "abs", "ops": ["read_hash", "stream_hash", "exists", "list", "copy_hash", "hard_link_hash", "reflink_hash"], "keys": []})
+        for st_ in ("readonly-extracted", "link-to-readonly-target"):
+            jobs.append({"flavour": flavour, "side": side, "temp": st_, "rootform": "abs", "ops": ["remove", "remove_fully", "write", "read", "copy", "hard_link"], "keys": keys[:2]})
+            jobs.append({"flavour": flavour, "side": side, "temp": st_, "rootform": "abs", "ops": ["remove_hash", "clear", "write_hash", "read_hash", "exists", "list"], "keys": []})
         jobs.append({"flavour": flavour, "side": side, "temp": "dangling-link", "rootform": "abs", "ops": ["link_to", "write", "read"], "keys": keys[:2]})
         jobs.append({"flavour": flavour, "side": side, "temp": "dangling-link", "rootform": "abs", "ops": ["link_to_hash", "write_hash", "read_hash", "exists"], "keys": []})
     if quick:
         jobs.append({"flavour": "sync", "side": "s", "temp": "warm", "rootform": "rel", "ops": KEYED[:6] + UNKEYED, "keys": keys[:4]})
         jobs.append({"flavour": "astd", "side": "a", "temp": "warm", "rootform": "symlink", "ops": KEYED[:6] + UNKEYED, "keys": keys[:4]})
+        jobs.append({"flavour": "sync", "side": "s", "temp": "warm", "rootform": "symlink", "ops": ["clear", "remove_hash", "remove_fully", "remove", "write", "list", "copy"], "keys": keys[:2]})
+        jobs.append({"flavour": "astd", "side": "a", "temp": "warm", "rootform": "rel", "ops": ["clear", "remove_hash", "remove_fully", "remove", "write", "list", "copy"], "keys": keys[:2]})
     counter = mp.Value("i", 0)
     pool = mp.Pool(R.NPROC, initializer=R._init, initargs=(R.base_dir(), counter, tier, seed, 20.0, worker))
     agg = V.new()
